@@ -92,6 +92,8 @@ pub struct OBook {
     /// XML comments and line breaks in the manifest: between the entries and between a file-entry start tag and its
     /// encryption-data child
     pub manifest_comments: bool,
+    /// write plain manifest entries as start tag + end tag instead of an empty-element tag
+    pub manifest_end_tags: bool,
 }
 
 fn spaces_xml(n: usize, mode: SpaceMode, at_start: bool) -> String {
@@ -243,7 +245,8 @@ pub fn manifest_xml(b: &OBook) -> String {
         if b.encrypted_entries.contains(&i) {
             o.push_str(&format!("<manifest:file-entry manifest:full-path=\"{p}\" manifest:media-type=\"{m}\" manifest:size=\"100\"><manifest:encryption-data manifest:checksum-type=\"urn:oasis:names:tc:opendocument:xmlns:manifest:1.0#sha256-1k\" manifest:checksum=\"AAAA\"><manifest:algorithm manifest:algorithm-name=\"http://www.w3.org/2001/04/xmlenc#aes256-cbc\" manifest:initialisation-vector=\"AAAA\"/><manifest:key-derivation manifest:key-derivation-name=\"PBKDF2\" manifest:key-size=\"32\" manifest:iteration-count=\"100000\" manifest:salt=\"AAAA\"/><manifest:start-key-generation manifest:start-key-generation-name=\"http://www.w3.org/2000/09/xmldsig#sha256\" manifest:key-size=\"32\"/></manifest:encryption-data></manifest:file-entry>"));
         } else {
-            o.push_str(&format!("<manifest:file-entry manifest:full-path=\"{p}\" manifest:media-type=\"{m}\"/>"));
+            if b.manifest_end_tags { o.push_str(&format!("<manifest:file-entry manifest:full-path=\"{p}\" manifest:media-type=\"{m}\"></manifest:file-entry>")); }
+            else { o.push_str(&format!("<manifest:file-entry manifest:full-path=\"{p}\" manifest:media-type=\"{m}\"/>")); }
         }
     }
     o.push_str("</manifest:manifest>");
